@@ -116,6 +116,10 @@ func getDescription(raw interface{}) string {
 		desc = getMapValueString(node, "Description.Value")
 	}
 	if desc != "" {
+		if !blockStringSafe(desc) {
+			// the block form would not read back as the same text
+			return quoteString(desc)
+		}
 		sep := ""
 		if strings.ContainsRune(desc, '\n') {
 			sep = "\n"
@@ -123,6 +127,36 @@ func getDescription(raw interface{}) string {
 		desc = join([]string{`"""`, desc, `"""`}, sep)
 	}
 	return desc
+}
+
+// blockStringSafe reports whether printing s between triple quotes (on one
+// line, or on lines of its own when it contains a newline) is read back by
+// the lexer as exactly s: no terminator or escape inside, nothing that
+// BlockStringValue() would trim (blank first/last line, common indentation),
+// no carriage return (normalised to \n) and no control character.
+func blockStringSafe(s string) bool {
+	if strings.Contains(s, `"""`) || strings.HasSuffix(s, `"`) || strings.HasSuffix(s, `\`) {
+		return false
+	}
+	for i := 0; i < len(s); i++ {
+		if c := s[i]; c < 0x20 && c != '\t' && c != '\n' {
+			return false
+		}
+	}
+	blank := func(l string) bool { return strings.TrimLeft(l, " \t") == "" }
+	lines := strings.Split(s, "\n")
+	if blank(lines[0]) || blank(lines[len(lines)-1]) {
+		return false
+	}
+	if len(lines) == 1 {
+		return true
+	}
+	for _, l := range lines {
+		if !blank(l) && l[0] != ' ' && l[0] != '\t' {
+			return true // common indentation is zero
+		}
+	}
+	return false
 }
 
 func toSliceString(slice interface{}) []string {
